@@ -43,12 +43,14 @@ class TranslationError(Exception):
 
 
 class FuncSig(object):
-    def __init__(self, name, params, ret, module):
+    def __init__(self, name, params, ret, module, pyname=None, mutates=None):
         self.name = name  # python name
         self.coq = name  # coq name
         self.params = params  # list of (name, type)
         self.ret = ret
         self.module = module
+        self.pyname = pyname  # importable module name (None for synthetic sources)
+        self.mutates = mutates  # index of the dict parameter a procedure updates (ret == "state")
 
 
 class Registry(object):
@@ -101,6 +103,7 @@ class ModuleSource(object):
         self.relpath = relpath
         self.path = os.path.join(repo, relpath)
         self.pyname = pyname
+        self.synthetic = text is not None
         if text is None:
             with open(self.path) as f:
                 self.text = f.read()
@@ -211,6 +214,27 @@ class FuncTranslator(object):
         self.infer_param_types()
         self.ret = None
         self.renames = {}
+        # a PROCEDURE updates exactly one of its dictionary parameters (state["k"] = ..., or by calling
+        # another translated procedure on it) and returns nothing: it is translated as returning the updated record
+        muts = set()
+        for n in ast.walk(node):
+            tg = None
+            if isinstance(n, ast.Assign) and len(n.targets) == 1:
+                tg = n.targets[0]
+            elif isinstance(n, ast.AugAssign):
+                tg = n.target
+            if isinstance(tg, ast.Subscript) and isinstance(tg.value, ast.Name) and tg.value.id in self.ptypes:
+                muts.add(tg.value.id)
+            if isinstance(n, ast.Expr) and isinstance(n.value, ast.Call) and isinstance(n.value.func, ast.Name):
+                sg = reg.funcs.get(n.value.func.id)
+                if sg is not None and sg.mutates is not None and len(n.value.args) > sg.mutates and isinstance(
+                        n.value.args[sg.mutates], ast.Name):
+                    muts.add(n.value.args[sg.mutates].id)
+        if len(muts) > 1:
+            raise TranslationError(self.where + ": updates more than one dictionary parameter")
+        self.mutated = muts.pop() if muts else None
+        if self.mutated is not None:
+            self.ptypes[self.mutated] = "state"
 
     def err(self, node, msg):
         raise TranslationError(
@@ -464,6 +488,7 @@ class FuncTranslator(object):
         sig = self.reg.funcs.get(name)
         if sig is None:
             self.err(e, "call to untranslated function %s" % name)
+        self.check_live_binding(e, name, sig)
         if len(args) != len(sig.params):
             self.err(e, "arity mismatch calling %s" % name)
         ts = []
@@ -478,6 +503,19 @@ class FuncTranslator(object):
             and_dom(dom, "(%s_dom %s)" % (sig.coq, argtext)),
         )
 
+    def check_live_binding(self, node, name, sig):
+        """The name must be bound, in the calling module's live namespace, to the very function object that
+        was translated (an `import x as name` or a rebinding would otherwise go unnoticed: fail closed)."""
+        if sig.pyname is None or self.ms.synthetic:
+            return
+        try:
+            here = getattr(self.ms.live_module(), name)
+            there = getattr(importlib.import_module(sig.pyname), sig.name)
+        except Exception as ex:
+            self.err(node, "cannot resolve live binding of %s (%s)" % (name, ex))
+        if here is not there:
+            self.err(node, "name %s is not bound to the translated function %s.%s" % (name, sig.pyname, sig.name))
+
     def state_text(self, t):
         if isinstance(t, tuple) and t[0] == "STATE":
             return ("STATE", t[1])
@@ -488,6 +526,12 @@ class FuncTranslator(object):
         """Returns a tree: ('let', x, text, dom, sub) | ('if', text, dom, a, b)
         | ('ret', text, type, dom) | ('fail',)"""
         if not stmts:
+            if self.mutated is not None:
+                if self.ret is None:
+                    self.ret = "state"
+                elif self.ret != "state":
+                    self.err(self.node, "procedure also returns a value")
+                return ("ret", self.cname(self.mutated), "state", "true")
             return ("fail",)
         s, rest = stmts[0], stmts[1:]
         if (
@@ -500,10 +544,15 @@ class FuncTranslator(object):
             return self.block(rest, env)
         if isinstance(s, ast.Return):
             if s.value is None:
+                if self.mutated is not None:
+                    self.ret = self.ret or "state"
+                    return ("ret", self.cname(self.mutated), "state", "true")
                 return ("fail",)
             t, ty, d = self.expr(s.value, env)
             if ty == "unassigned":
                 return ("fail",)
+            if self.mutated is not None:
+                self.err(s, "procedure returning a value")
             if ty not in ("Z", "bool"):
                 self.err(s, "return of type %s" % ty)
             if self.ret is None:
@@ -513,6 +562,44 @@ class FuncTranslator(object):
             return ("ret", t, ty, d)
         if isinstance(s, ast.Raise):
             return ("fail",)
+        if isinstance(s, (ast.Assign, ast.AugAssign)) and isinstance(
+                s.targets[0] if isinstance(s, ast.Assign) else s.target, ast.Subscript):
+            tgt = s.targets[0] if isinstance(s, ast.Assign) else s.target
+            if isinstance(s, ast.Assign) and len(s.targets) != 1:
+                self.err(s, "multiple assignment targets")
+            key = tgt.slice.value if isinstance(tgt.slice, ast.Index) else tgt.slice
+            if not (isinstance(tgt.value, ast.Name) and env.get(tgt.value.id) == "state"
+                    and isinstance(key, ast.Constant) and isinstance(key.value, str)):
+                self.err(s, "unsupported subscript assignment")
+            dname = tgt.value.id
+            if dname != self.mutated:
+                self.err(s, "assignment to a dictionary other than the one this procedure updates")
+            self.reg.add_key(key.value)
+            if isinstance(s, ast.Assign):
+                t, ty, d = self.expr(s.value, env)
+            else:
+                fake = ast.BinOp(left=ast.Subscript(value=tgt.value, slice=tgt.slice, ctx=ast.Load()), op=s.op, right=s.value)
+                ast.copy_location(fake, s)
+                ast.fix_missing_locations(fake)
+                t, ty, d = self.expr(fake, env)
+            if ty == "unassigned":
+                return ("fail",)
+            if ty != "Z":
+                self.err(s, "dictionary entry of type %s" % ty)
+            upd = "(set_st_%s %s %s)" % (coq_ident(key.value), self.cname(dname), t)
+            return ("let", self.cname(dname), upd, d, self.block(rest, env))
+        if isinstance(s, ast.Expr) and isinstance(s.value, ast.Call) and isinstance(s.value.func, ast.Name):
+            # a call used as a statement: must be a translated PROCEDURE updating a dict we hold
+            sig = self.reg.funcs.get(s.value.func.id)
+            if sig is None or sig.mutates is None:
+                self.err(s, "call statement to something that is not a translated procedure")
+            t, ty, d = self.call(s.value, env)
+            arg = s.value.args[sig.mutates]
+            if not (isinstance(arg, ast.Name) and env.get(arg.id) == "state"):
+                self.err(s, "procedure call with a non-name dictionary argument")
+            if arg.id != self.mutated:
+                self.err(s, "procedure call updating a dictionary other than the one this procedure updates")
+            return ("let", self.cname(arg.id), t, d, self.block(rest, env))
         if isinstance(s, (ast.Assign, ast.AugAssign)):
             if isinstance(s, ast.Assign):
                 if len(s.targets) != 1 or not isinstance(s.targets[0], ast.Name):
@@ -558,7 +645,7 @@ class FuncTranslator(object):
         pad = "  " * ind
         k = tree[0]
         if k == "fail":
-            return pad + ("false" if self.ret == "bool" else "0")
+            return pad + ("false" if self.ret == "bool" else ("empty_pystate" if self.ret == "state" else "0"))
         if k == "ret":
             return pad + tree[1]
         if k == "let":
@@ -626,6 +713,8 @@ class FuncTranslator(object):
             [(p, self.ptypes[p]) for p in self.params + ([self.vararg] if self.vararg else [])],
             self.ret,
             self.ms.relpath,
+            pyname=None if self.ms.synthetic else self.ms.pyname,
+            mutates=self.params.index(self.mutated) if self.mutated is not None else None,
         )
         return sig, "\n".join(out)
 
